@@ -70,13 +70,13 @@ class PureMachine(MachineMixin, RuleBasedStateMachine):
     @precondition(lambda self: len(self.pool) > 0)
     @rule(i=st.integers(0, 7), kind=st.sampled_from(["uniform", "uniform", "face", "optimum", "ball", "reuse", "reuse"]),
           u=st.lists(unit, min_size=6, max_size=6), as_list=st.booleans(), fid=st.integers(-1, 2),
-          pick=st.integers(0, 10 ** 6))
-    def evaluate(self, i, kind, u, as_list, fid, pick):
+          pick=st.integers(0, 10 ** 6), buffered=st.sampled_from([False, False, True]))
+    def evaluate(self, i, kind, u, as_list, fid, pick, buffered):
         i %= len(self.pool)
-        self.trace.append(["evaluate", i, kind, u, as_list, fid, pick])
-        self.step(self._evaluate, i, kind, u, as_list, fid, pick)
+        self.trace.append(["evaluate", i, kind, u, as_list, fid, pick, buffered])
+        self.step(self._evaluate, i, kind, u, as_list, fid, pick, buffered)
 
-    def _evaluate(self, i, kind, u, as_list, fid, pick):
+    def _evaluate(self, i, kind, u, as_list, fid, pick, buffered=False):
         from iOpt.trial import FunctionValue, FunctionType, Point
         fam, key, p = self.pool[i]
         lo, hi = bench.bounds(p)
@@ -108,11 +108,24 @@ class PureMachine(MachineMixin, RuleBasedStateMachine):
         else:
             fid = -1
             holder = FunctionValue()
-        arg = list(y) if as_list else np.array(y, dtype=np.double)
+        if buffered:
+            # the caller keeps ONE coordinate container (and one Point) per instance and overwrites it in place
+            # between evaluations, as an optimisation loop that re-uses its work vector does
+            self.buffers = getattr(self, "buffers", {})
+            bk = (i, as_list)
+            if bk not in self.buffers:
+                cont = [0.0] * n if as_list else np.zeros(n, dtype=np.double)
+                self.buffers[bk] = (cont, Point(cont, []))
+            arg, point = self.buffers[bk]
+            arg[:] = y
+            self.cls.add("re-used-argument-container")
+        else:
+            arg = list(y) if as_list else np.array(y, dtype=np.double)
+            point = Point(arg, [])
         before = list(arg) if as_list else arg.copy()
-        out = p.Calculate(Point(arg, []), holder)
+        out = p.Calculate(point, holder)
         self.clock += 1
-        who = "%s(%s) instance %d at %r: " % (fam, key, i, y)
+        who = "%s(%s) instance %d at %r%s: " % (fam, key, i, y, " (re-used argument container)" if buffered else "")
         if out is not holder:
             fail(who + "Calculate returned a different object than the supplied value holder")
         val = holder.value
@@ -124,6 +137,13 @@ class PureMachine(MachineMixin, RuleBasedStateMachine):
                 fail(who + "Calculate modified the point: %r -> %r" % (before.tolist(), arg.tolist()))
         if not np.isfinite(val):
             fail(who + "value %r" % (val,))
+        if buffered:
+            # same instance, same point, supplied in a new container: must be the same value
+            h2 = FunctionValue(FunctionType.CONSTRAINT, fid) if (fam == "stronginC3" and fid >= 0) else FunctionValue()
+            v2 = p.Calculate(Point(np.array(y, dtype=np.double), []), h2).value
+            if float(v2) != float(val):
+                fail(who + "value %r through the re-used container, %r for the same point in a new array" %
+                     (float(val), float(v2)))
         mk = (fam, key, fid, np.array(y, dtype=np.double).tobytes())
         if mk in self.model:
             if float(val) != self.model[mk]:
